@@ -236,6 +236,9 @@ class ProtoRecorder:
         self.records = []
         self.adaptive = []
         self.max_adaptive = 400
+        self.assemble = []
+        self.assemble_errors = []
+        self.max_assemble = 40
         self.cur = None
         rec = self
         self.orig = {n: getattr(PeriodicFinder, n) for n in ("_find_proto_cell", "_find_best_basis", "_find_graphs", "_find_proto_cell_3d", "_find_proto_cell_2d")}
@@ -253,14 +256,35 @@ class ProtoRecorder:
                 rec.cur["seedInGraph"] = out[1] is not None
             return out
 
+        def _assemble_record(two, seed_nodes, group_data_pbc, seed_group_index, results, out, best_spans):
+            """inputs and outputs of the basis assembly (model: lean/MatidModel/ProtoAssemble.lean, driver op `assemble`)"""
+            if len(rec.assemble) >= rec.max_assemble or out[0] is None:
+                return
+            cells, seen, k = [], {}, 0
+            for node in seed_nodes:
+                i_seed, i_fac = int(node[0]), tuple(int(v) for v in node[1])
+                if i_seed not in seen:
+                    if k >= len(results):
+                        return
+                    seen[i_seed] = results[k]
+                    k += 1
+                ind, pos, fac = seen[i_seed]
+                cells.append(([(int(i), tuple(int(a_ + b_) for a_, b_ in zip(i_fac, f))) for i, f in zip(ind, fac)], np.array(pos, dtype=float).reshape(-1, 3)))
+            groups = [[(int(n[0]), tuple(int(v) for v in n[1])) for n in nodes] for nodes in group_data_pbc["nodes"]]
+            rec.assemble.append({"two": two, "cells": cells, "groups": groups, "nums": [int(z) for z in group_data_pbc["num"]], "seedGroup": int(seed_group_index),
+                                 "out_numbers": [int(z) for z in out[0].get_atomic_numbers()], "out_positions": np.array(out[0].get_positions(), dtype=float),
+                                 "out_cell": np.array(out[0].get_cell(), dtype=float), "out_seed": None if out[2] is None else int(out[2])})
+
         def cell3(finder, seed_nodes, best_spans, system, group_data_pbc, seed_group_index, adjacency_add, adjacency_sub, pos_tol):
             # capture the adaptive cells: they are the `basis` argument of get_positions_within_basis, called once per distinct seed atom
-            captured = []
+            captured, results = [], []
             orig_pwb = G.get_positions_within_basis
 
             def pwb(system_, basis, origin, tolerance, *a2, **k2):
                 captured.append(np.array(basis, dtype=float).copy())
-                return orig_pwb(system_, basis, origin, tolerance, *a2, **k2)
+                r_ = orig_pwb(system_, basis, origin, tolerance, *a2, **k2)
+                results.append((list(r_[0]), np.array(r_[1], dtype=float).copy(), [tuple(int(v) for v in f) for f in r_[2]]))
+                return r_
             G.get_positions_within_basis = pwb
             try:
                 out = rec.orig["_find_proto_cell_3d"](finder, seed_nodes, best_spans, system, group_data_pbc, seed_group_index, adjacency_add, adjacency_sub, pos_tol)
@@ -268,6 +292,10 @@ class ProtoRecorder:
                 G.get_positions_within_basis = orig_pwb
             if rec.cur is not None:
                 rec.cur["cellFound"] = out[0] is not None
+            try:
+                _assemble_record(False, seed_nodes, group_data_pbc, seed_group_index, results, out, best_spans)
+            except Exception as e:  # noqa
+                rec.assemble_errors.append(repr(e))
             if len(rec.adaptive) < rec.max_adaptive:
                 pos = system.get_positions()
                 cell = np.array(system.get_cell())
@@ -288,10 +316,25 @@ class ProtoRecorder:
                     k += 1
             return out
 
-        def cell2(finder, *a, **k):
-            out = rec.orig["_find_proto_cell_2d"](finder, *a, **k)
+        def cell2(finder, seed_nodes, best_spans, system, group_data_pbc, seed_group_index, adjacency_add, adjacency_sub, pos_tol):
+            results = []
+            orig_pwb = G.get_positions_within_basis
+
+            def pwb(system_, basis, origin, tolerance, *a2, **k2):
+                r_ = orig_pwb(system_, basis, origin, tolerance, *a2, **k2)
+                results.append((list(r_[0]), np.array(r_[1], dtype=float).copy(), [tuple(int(v) for v in f) for f in r_[2]]))
+                return r_
+            G.get_positions_within_basis = pwb
+            try:
+                out = rec.orig["_find_proto_cell_2d"](finder, seed_nodes, best_spans, system, group_data_pbc, seed_group_index, adjacency_add, adjacency_sub, pos_tol)
+            finally:
+                G.get_positions_within_basis = orig_pwb
             if rec.cur is not None:
                 rec.cur["cellFound"] = out[0] is not None
+            try:
+                _assemble_record(True, seed_nodes, group_data_pbc, seed_group_index, results, out, best_spans)
+            except Exception as e:  # noqa
+                rec.assemble_errors.append(repr(e))
             return out
 
         def dimensionality(*a, **k):
